@@ -285,7 +285,8 @@ def _pick_selector(draw, name, blocks):
         bname, insts = draw(st.sampled_from(blocks))
         vars_ = sorted({k for d in insts for k in d}) or ["ID"]
         var = draw(st.sampled_from(vars_))
-        return (draw(st.sampled_from([nm, "*", nm])), draw(st.sampled_from([bname, "*", bname])), draw(st.sampled_from([var, var, "*"])))
+        # (the first component names the message - or the kind of entry, like a bare selector does)
+        return (draw(st.sampled_from([nm, "*", nm, "LLUDP", "LL*"])), draw(st.sampled_from([bname, "*", bname])), draw(st.sampled_from([var, var, "*"])))
     return (draw(st.sampled_from([nm, "*", "ChatFromViewer"])), draw(st.sampled_from(["*", "AgentData", "ChatData"])),
             draw(st.sampled_from(["*", "AgentID", "Message", "Channel", "ID"])))
 
